@@ -44,6 +44,7 @@ type CrashCfg struct {
 	BigTxn              bool        `json:"big_txn"`
 	Pressure            bool        `json:"pressure"`
 	CleanRestartInSetup bool        `json:"clean_restart_in_setup"`
+	BulkLoser           int         `json:"bulk_loser,omitempty"`  // a transaction that inserts this many wide rows and never commits, followed by a committed bulk insert of another one (minimum pool)
 	HotUpdates          int         `json:"hot_updates,omitempty"` // BigTxn variant: this many in-place updates of one or two rows in one transaction
 	LateTables          []TableSpec `json:"late_tables,omitempty"` // created by ddl ops in the middle of the history
 	PDDL                float64     `json:"p_ddl,omitempty"`
@@ -127,7 +128,7 @@ func genCrashCfg(r *rng, tier string, prop string) CrashCfg {
 		c.Tables[0].Wide = 200
 		c.Frames = 0
 		c.InitRows = 120 + r.Intn(100)
-		c.Slots = 1
+		c.Slots = 1 + r.Intn(2) // (two slots: a long-lived loser whose pages lie in the middle of what the others filled later)
 		c.PAuto = 0
 		c.NOps = 12 + r.Intn(20)
 		c.CleanRestartInSetup = false
@@ -163,9 +164,26 @@ func genCrashCfg(r *rng, tier string, prop string) CrashCfg {
 		c.MaxImages = 40
 		c.TornPages = false
 	}
+	if (!c.Pressure && !c.BigTxn && r.Chance(0.04)) || os.Getenv("VERIF_FORCE_BULKLOSER") != "" {
+		c.Pressure, c.BigTxn, c.HotUpdates = false, false, 0
+		// bulk loser: recovery itself runs under eviction pressure - the loser's pages lie in the middle of
+		// what redo walks through, are evicted after redo, re-read for undo and evicted again
+		c.BulkLoser = 250 + r.Intn(250)
+		c.Tables = c.Tables[:1]
+		c.Tables[0].Cols = []Col{{"k", TInt}, {"v", TInt}, {"s", TVarchar}}
+		c.Tables[0].Wide = 200
+		c.Frames = 0
+		c.InitRows = 10 + r.Intn(30)
+		c.Slots = 2
+		c.NOps = c.BulkLoser + 150 + r.Intn(150) + 4
+		c.PAuto, c.PCheckpt = 0, 0
+		c.CleanRestartInSetup = false
+		c.MaxImages = 12
+		c.TornPages = false
+	}
 	// tables created in the middle of the history (crash points inside and around CREATE TABLE): the
 	// bulk of the C10 runs, a fraction of the others
-	if !c.Pressure && !c.BigTxn && (prop == "C10" || r.Chance(0.15)) {
+	if !c.Pressure && !c.BigTxn && c.BulkLoser == 0 && (prop == "C10" || r.Chance(0.15)) {
 		nl := 1 + r.Intn(3)
 		for i := 0; i < nl; i++ {
 			ts := TableSpec{Name: fmt.Sprintf([]string{"u%d", "u%d", "U%d", "Ux%d"}[r.Intn(4)], i), Cols: []Col{{"k", TInt}, {"v", TInt}}, Wide: []int{8, 30, 120}[r.Intn(3)]}
@@ -193,6 +211,25 @@ type keyGen struct {
 
 // genOp produces the next operation from the current model state.
 func genOp(r *rng, c *CrashCfg, e *Exec, kg *keyGen) Op {
+	if c.BulkLoser > 0 {
+		ins := func(t int) Op {
+			ts := &c.Tables[0]
+			return Op{T: t, Kind: "stmt", Stmt: &Stmt{Kind: "insert", Table: ts.Name, Cols: colNames(ts), Rows: [][]any{genRow(r, ts, kg.fresh(ts.Name))}}}
+		}
+		s0, s1 := e.Slots[0], e.Slots[1]
+		switch {
+		case s0 == nil && e.Aborts == 0 && len(e.Outcomes) == 0:
+			return Op{T: 0, Kind: "begin"}
+		case s0 != nil && s0.mt.Stmts < c.BulkLoser:
+			return ins(0)
+		case s1 == nil:
+			return Op{T: 1, Kind: "begin"}
+		case s1.mt.Stmts < c.NOps-c.BulkLoser-4:
+			return ins(1)
+		default:
+			return Op{T: 1, Kind: "commit"}
+		}
+	}
 	// pick a slot
 	t := r.Intn(c.Slots)
 	sl := e.Slots[t]
